@@ -283,6 +283,7 @@ prop("C11", "Steady-state decoding performs no heap allocation", [
 
 prop("C13", "Registering and decoding concurrently is race-free and linearizable", [
     ("lock_discipline_of_db_go", "lock_discipline_holds", "the lock structure regenerated from db.go: every access to idxID / idxKey / idxHash / buf lies in a lock region, writes under the write lock, no locking method called while the lock is held, every path releases the lock"),
+    ("one_critical_section_per_method", "every_db_method_is_one_critical_section", "regenerated from db.go: on every path each method of the registry takes the lock at most once, so its lookup and its update lie in one critical section (what the concurrency model below assumes of a writer operation; a registration that finds the slot under one lock and writes it under another is not atomic)"),
     ("no_shared_state_besides_the_registries", "no_package_level_stores", "the audit regenerated from the working tree: no function other than init and the Register* family stores to a package-level variable (a scratch buffer shared by concurrent Parse or Decode calls would show here)"),
     ("registry_fields_only_touched_in_db_go", "registry_fields_private", "and nothing outside db.go touches those fields"),
     ("lock_invariant", "exec_inv", "a readers-writer lock around a shared value, writer operations non-atomic sequences of primitive writes, arbitrary schedules: the invariant of every reachable configuration"),
